@@ -55,6 +55,7 @@ fn classify_panic(msg: &str) -> &'static str {
 fn dispatch(mode: &str, line: &str) -> String {
     match mode {
         "tsc" => pure::tsc(line),
+        "tscd" => pure::tscd(line),
         "dur" => pure::dur(line),
         "prec" => pure::prec(line),
         "precq" => pure::precq(line),
